@@ -1214,4 +1214,9 @@ class Server(utils.EventEmitter):
             )
             return
 
+        if pending_confirmation.done():
+            # Already confirmed (or timed out), the indicating task has not run yet
+            logger.warning('!!! unexpected confirmation, already confirmed')
+            return
+
         pending_confirmation.set_result(None)
